@@ -342,6 +342,13 @@ def build_case(data):
             other['tokens'] = first['tokens']
             sent.append(other)
         batch.append(sent)
+    if system == 'ja' and t.tail(0) % 4 == 0:
+        # a token whose own 'surf' attribute is not the word of the leaf (an annotator that keeps the unnormalised
+        # surface): the words of the derivation are what the file has to give back
+        sent = batch[t.tail(1) % len(batch)]
+        toks = sent[0]['tokens']
+        tok = toks[t.tail(2) % len(toks)]
+        tok['surf'] = tok['word'] + '゙' if t.tail(3) % 2 else 'Ｘ' + tok['word']
     return {'system': system, 'batch': batch}
 
 
